@@ -21,9 +21,10 @@
 (* f64::from_str, which also accepts inf / infinity / nan in any letter    *)
 (* case; the documentation makes those identifiers.  The lexer follows     *)
 (* the documentation and flags the input (`kf1`), see KNOWN_FINDINGS.txt.  *)
-(* Integer-looking words outside the i64 range are not documented; the     *)
-(* lexer follows the crate (decimal -> float, hex -> identifier) and flags *)
-(* the input as `unclaimed`.                                               *)
+(* A decimal digit string outside the i64 range is not documented; the     *)
+(* lexer follows the crate (it becomes a float) and flags the input as     *)
+(* `unclaimed`.  A 0x word outside the range is an ordinary word, i.e. an  *)
+(* identifier, as the documentation says of "any other word".              *)
 (***************************************************************************)
 EXTENDS Grammar, Prim
 
@@ -109,7 +110,9 @@ WordToken(w) ==
   ELSE IF w = TrueText THEN TLit(VBool(TRUE), w)
   ELSE IF w = FalseText THEN TLit(VBool(FALSE), w)
   ELSE TId(w)
-WordUnclaimed(w) == (LooksDec(w) /\ ~DecValue(w).ok) \/ (LooksHex(w) /\ ~HexValue(w).ok)
+\* a digit string beyond i64 is documented neither as integer nor as float (the crate makes it a float): not claimed.
+\* A 0x word beyond i64 is simply "any other word": an identifier.
+WordUnclaimed(w) == LooksDec(w) /\ ~DecValue(w).ok
 
 RECURSIVE LexFrom(_, _, _, _, _)
 LexFrom(s, p, out, kf1, unc) ==
